@@ -8,6 +8,7 @@ mod props;
 mod rng;
 mod scenarios;
 mod shrink;
+mod synctest;
 mod truth;
 mod types;
 mod world;
